@@ -13,10 +13,67 @@ from .core import AnalysisError, Program, Report
 PROPS = ["C%02d" % i for i in range(1, 21)]
 
 
+def selftests(prop, mod):
+    """Sensitivity self-test (thorough tier): every seeded change recorded
+    for this property under /verif/seeded is applied to a scratch copy of
+    /repo's CURRENT rig/ (outside /repo and /verif, removed at once) and the
+    rules are re-run on it: they must report a violation.  Shows that
+    'silent on the real tree' is meaningful on this tree."""
+    import json
+    import shutil
+    import subprocess
+    import tempfile
+    from .core import REPO, VERIF
+    out = []
+    base = os.path.join(VERIF, "seeded")
+    if not os.path.isdir(base):
+        return out
+    for sid in sorted(os.listdir(base)):
+        d = os.path.join(base, sid)
+        try:
+            meta = json.load(open(os.path.join(d, "meta.json")))
+        except Exception:
+            continue
+        if meta.get("property") != prop or \
+                meta.get("kind", "breaking") != "breaking":
+            continue
+        tmp = tempfile.mkdtemp(prefix="rv_self_")
+        try:
+            shutil.copytree(os.path.join(REPO, "rig"),
+                            os.path.join(tmp, "rig"),
+                            ignore=shutil.ignore_patterns("__pycache__"))
+            r = subprocess.run(["git", "apply", "--unsafe-paths",
+                                "--directory=" + tmp,
+                                os.path.join(d, "patch.diff")], cwd="/",
+                               capture_output=True, text=True)
+            if r.returncode != 0:
+                out.append((sid + " (patch no longer applies)", None))
+                continue
+            rep = Report(prop, "thorough", quiet=True)
+            try:
+                rc = mod.check(Program(repo=tmp), rep)
+            except AnalysisError as e:
+                rc = 2
+            rules = sorted(set(f.rule for f in getattr(
+                rep, "new_findings", [])))
+            out.append(("%s -> %s" % (sid, ",".join(rules) or "exit %s" %
+                                       rc), rc == 1))
+        finally:
+            shutil.rmtree(tmp, ignore_errors=True)
+    return out
+
+
 def run(prop, tier):
     mod = importlib.import_module("rigverif.rules." + prop)
+    st = selftests(prop, mod) if tier == "thorough" else []
     program = Program()
     report = Report(prop, tier)
+    report.selftests = [(n, f) for n, f in st if f is not None]
+    for n, f in st:
+        if f is None:
+            report.note("self-test skipped: " + n)
+    if tier == "thorough" and hasattr(mod, "thorough"):
+        mod.thorough(program, report)
     return mod.check(program, report)
 
 
